@@ -34,10 +34,21 @@ type dhcpCfg struct {
 }
 
 func (c dhcpCfg) dns() netip.Addr {
-	if c.DNS == 1 {
+	switch c.DNS {
+	case 1:
 		return netip.MustParseAddr("9.9.9.9")
+	case 2:
+		return dNets[c.Net].router
 	}
 	return netip.MustParseAddr("8.8.4.4")
+}
+
+// dnsConfig is what is put into Config.DNSServer.
+func (c dhcpCfg) dnsConfig() netip.Addr {
+	if c.DNS == 2 {
+		return netip.Addr{}
+	}
+	return c.dns()
 }
 
 func (c dhcpCfg) netfilter() netip.Prefix {
@@ -202,7 +213,7 @@ func newDHCPEnv(c dhcpCfg) (*dhcpEnv, error) {
 	for _, m := range c.Pre { // the application restores its capture list before it starts the DHCP handler
 		s.Capture(hwOf(hMACs[m%len(hMACs)]))
 	}
-	h, err := dhcp4.Config{Mode: dhcp4.Mode(c.Mode), NetfilterIP: c.netfilter(), DNSServer: c.dns(), LeaseFilename: c.File}.New(s)
+	h, err := dhcp4.Config{Mode: dhcp4.Mode(c.Mode), NetfilterIP: c.netfilter(), DNSServer: c.dnsConfig(), LeaseFilename: c.File}.New(s)
 	if err != nil {
 		closeSession(s)
 		return nil, err
